@@ -88,7 +88,7 @@ class C09(Check):
             # the quick tier keeps to its budget: spines to nesting depth 4 and the pairs layer; the deviation layers and
             # depth-5 spines are explored by the thorough tier (and, for semantics, by C01's quick tier)
             return [("L0-depth<=2-default", cf(c01.L0(2))), ("examples", ex), ("generated-corpus", gen),
-                    ("L0b-depth<=2-module+recursion", cf(c01.L0b())), ("L0c-depth<=1-void-functions", cf(c01.L0c(1))), ("L3q-pairs-of-compounds", cf(c01.L3q())),
+                    ("L0b-depth<=2-module+recursion", cf(c01.L0b())), ("L0c-depth<=1-void-functions", cf(c01.L0c(1))), ("L3q-pairs-of-compounds", cf(c01.L3q())), ("L3r-two-loops-at-different-block-depths", cf(c01.L3r())),
                     ("L1q-loop-shapes-single-deviation", cf(c01.L1_loops())),
                     ("L2-spines<=4", cf(c01.L2(4)))]
         ls = []
